@@ -38,6 +38,20 @@ SHARED = Item(value=1000)
 from traits.constants import ComparisonMode
 
 
+class VItem(HasTraits):
+    """a value object: equal when the values are equal"""
+    value = Int(1)
+
+    def __eq__(self, other):
+        return isinstance(other, VItem) and self.value == other.value
+
+    def __ne__(self, other):
+        return not self.__eq__(other)
+
+    def __hash__(self):
+        return 5
+
+
 class Box(HasTraits):
     """its traits carrying `component` metadata are summed by Holder.boxsum; more of them are ADDED to instances"""
     comp_a = Instance(Item, component=True)
@@ -88,6 +102,26 @@ class Holder(HolderBase):
     ident_p = Property(Str, observe="ident_dep")
     box = Instance(Box)
     boxsum = Property(Int, observe="box.+component.value")        # through a metadata filter one level down
+    s0 = Int(1, slot=0)                                           # metadata defined but falsy: still selected by '+slot'
+    s1 = Int(2, slot=1)
+    s_none = Int(4, slot=None)                                    # not selected
+    slots = Property(Int, observe="+slot")
+    point = Instance(VItem)                                       # a dependency whose values compare by content
+    px = Property(Int, observe="point.value")
+    members = __import__("traits.api", fromlist=["Set"]).Set(Instance(Item))
+    mtotal = Property(Int, observe="members.items.value")
+
+    @cached_property
+    def _get_slots(self):
+        return self.s0 * 100 + self.s1
+
+    @cached_property
+    def _get_px(self):
+        return self.point.value if self.point is not None else -1
+
+    @cached_property
+    def _get_mtotal(self):
+        return sum(m.value for m in self.members)
 
     def _get_sup_p(self):
         return super()._get_sup_p() + 1
@@ -134,14 +168,16 @@ def recompute(h):
     return {"total": sum(k.value for k in h.kids), "echo": h.child.value if h.child is not None else -1,
             "size": sum(h.table.values()), "plain": h.base * 3, "weight": sum(p.value for p in h.parts.values()),
             "scaled": h.config.value * 2, "ident_p": type(h.ident_dep).__name__, "sub_p": h.base * 5, "sup_p": h.base * 7 + 1,
-            "boxsum": box_sum(h.box)}
+            "boxsum": box_sum(h.box), "slots": h.s0 * 100 + h.s1, "px": h.point.value if h.point is not None else -1,
+            "mtotal": sum(m.value for m in h.members)}
 
 
-PROPS = ("total", "echo", "size", "plain", "weight", "scaled", "ident_p", "sub_p", "sup_p", "boxsum")
+PROPS = ("total", "echo", "size", "plain", "weight", "scaled", "ident_p", "sub_p", "sup_p", "boxsum", "slots", "px", "mtotal")
 OPS = ["read", "kid_value", "append", "insert_dup", "del", "slice_dup", "remove_first", "child=", "child_value", "table_set",
        "table_del", "base", "sort_reverse", "assign_dup_list", "pop", "part_same", "part_update_same", "part_value", "part_new",
        "shared_value", "config=", "config_value", "del_kids", "del_child", "del_parts", "del_config", "ident=1.0", "ident=True",
-       "part_repeated_key", "box=", "box_extra_value", "box_a_value", "box_add_later"]
+       "part_repeated_key", "box=", "box_extra_value", "box_a_value", "box_add_later",
+       "s0", "s_none", "point=equal", "point_value", "members_symdiff", "member_value"]
 
 
 CORE_OPS = ["kid_value", "append", "insert_dup", "del", "slice_dup", "pop", "assign_dup_list", "part_same", "part_value", "del_kids"]
@@ -161,7 +197,7 @@ def harness_factory(variant, k, first=None, ops=None):
         a = Item(value=2)
         dup_start = variant != "original" or ex.flag("kids_start_with_a_duplicate")      # copies re-hook whole containers: always with a repeated item
         h = Holder(child=Item(value=5), kids=[a, a, Item(value=3)] if dup_start else [a, Item(value=3)], table={"x": 1},
-                   parts={"p": Item(value=4), "q": Item(value=6)})
+                   parts={"p": Item(value=4), "q": Item(value=6)}, point=VItem(value=1), members={Item(value=11), Item(value=12)})
         h.total, h.echo, h.size, h.weight          # warm the caches before copying (scaled / config stay untouched on purpose)
         if variant == "unpickled":
             h = pickle.loads(pickle.dumps(h))
@@ -258,6 +294,22 @@ def harness_factory(variant, k, first=None, ops=None):
                         h.box.add_trait("late", Instance(Item, component=True))
                         h.box.late = Item(value=40 + step)
                         h.box.late.value += 1
+                elif op == "s0":
+                    h.s0 += 1
+                elif op == "s_none":
+                    h.s_none += 1
+                elif op == "point=equal":
+                    # a distinct object that compares equal to the one it replaces (or the first one): the observers follow it
+                    h.point = VItem(value=h.point.value if h.point is not None else 1)
+                elif op == "point_value":
+                    if h.point is not None:
+                        h.point.value += 1
+                elif op == "members_symdiff":
+                    keep = sorted(h.members, key=lambda m: m.value)[:1]
+                    h.members.symmetric_difference_update(set(keep) | {Item(value=40 + step)})     # one goes, one comes
+                elif op == "member_value":
+                    for m in list(h.members)[:1]:
+                        m.value += 7
                 elif op == "shared_value":
                     SHARED.value += 1                            # relevant while config is still the (never assigned) default
                 elif op == "config=":
